@@ -364,7 +364,7 @@ Inductive t_tstate := TNone | TWaiting | TServed | TRemote.
 (* who the parties of the mappings are: two clients (PNormal), or a SERVER-SIDE LISTENER: stored listening client id 0 (PListen0, e.g.
    HTTP-domain mappings created through the management API), or no target client: stored target client id 0 (PTarget0).
    An unauthenticated connection also carries client id 0 — it must never count as "the party with id 0". *)
-Inductive t_party := PNormal | PListen0 | PTarget0.
+Inductive t_party := PNormal | PListen0 | PTarget0 | PNoSecret.   (* PNoSecret: the mappings store NO secret (connection-code mappings) *)
 Record cell := { ce_id : t_id; ce_mid : t_mid; ce_secret : t_secret; ce_resume : bool; ce_mstate : t_mstate; ce_tstate : t_tstate;
                  ce_party : t_party }.
 
@@ -387,16 +387,18 @@ Definition cell_db (c : cell) : db :=
   let own := match ce_id c with IdNone | IdHalf => 13 | _ => cell_client c end in
   let lis (l : client) := match ce_party c with PListen0 => 0 | _ => l end in
   let tgt (t : client) := match ce_party c with PTarget0 => 0 | _ => t end in
-  fun m => if N.eqb m 1 then mk_mapping (lis 11) (tgt 12) 101 (if named_other then MActive else ce_mstate c)
-           else if N.eqb m 2 then mk_mapping (lis own) (tgt 14) 102 (if named_other then ce_mstate c else MActive)
+  let key (k : key) := match ce_party c with PNoSecret => 0 | _ => k end in
+  fun m => if N.eqb m 1 then mk_mapping (lis 11) (tgt 12) (key 101) (if named_other then MActive else ce_mstate c)
+           else if N.eqb m 2 then mk_mapping (lis own) (tgt 14) (key 102) (if named_other then ce_mstate c else MActive)
            else None.
 Definition cell_req (c : cell) : request :=
   {| r_mid := match ce_mid c with MidNone => 0 | MidTunnel => 1 | MidOther => 2 end;
      r_tid := 7;
      r_secret := match ce_secret c with SNone => 0 | SWrong => 999
                  | SPrefix1 => 991 | SPrefixAll => 992 | SSuffix => 993 | SPlus => 994 | SCase => 995 | SOneChar => 996
-                 | SOther => match ce_mid c with MidOther => 101 | _ => 102 end
-                 | SRight => match ce_mid c with MidOther => 102 | _ => 101 end end;
+                 | SOther => match ce_party c with PNoSecret => 0 | _ => match ce_mid c with MidOther => 101 | _ => 102 end end
+                 | SRight => match ce_party c with PNoSecret => 0 | _ => match ce_mid c with MidOther => 102 | _ => 101 end end
+                 end;
      r_resume := ce_resume c |}.
 Definition cell_tun (c : cell) : tid -> option bridge :=
   match ce_tstate c with
@@ -436,7 +438,8 @@ Definition party_tstates := [TNone; TWaiting; TRemote].
 Definition all_cells : list cell :=
   cells_of PNormal all_ids all_mids all_secrets [false; true] all_mstates all_tstates ++
   cells_of PListen0 all_ids all_mids party_secrets [false] party_mstates party_tstates ++
-  cells_of PTarget0 all_ids all_mids party_secrets [false] party_mstates party_tstates.
+  cells_of PTarget0 all_ids all_mids party_secrets [false] party_mstates party_tstates ++
+  cells_of PNoSecret all_ids all_mids [SNone; SWrong] [false] party_mstates party_tstates.
 
 (* the specification's verdict on a cell: an attachment needs entitlement, and whoever is not entitled gets a failure ack *)
 Definition cell_ok (v : variant) (c : cell) : bool :=
